@@ -203,6 +203,32 @@ impl Elem for Pl {
     }
 }
 
+/// Zero-sized element WITHOUT a destructor whose Clone and Default are nevertheless observable: no drop glue
+/// and no bytes, yet not Copy - a bitwise copy is not a clone of it.  Anonymous like TkZ.
+#[derive(Debug)]
+pub struct PlZ;
+impl Elem for PlZ {
+    const ETY: &'static str = "plz";
+    fn fresh() -> PlZ {
+        PlZ
+    }
+    fn id(&self) -> i64 {
+        0
+    }
+}
+impl Clone for PlZ {
+    fn clone(&self) -> PlZ {
+        ev!("\"ev\":\"clone\",\"src\":0,\"new\":0");
+        PlZ
+    }
+}
+impl Default for PlZ {
+    fn default() -> PlZ {
+        ev!("\"ev\":\"mkdef\",\"id\":0");
+        PlZ
+    }
+}
+
 /// Zero-sized drop-tracked element: no identity; creations, clones and destructor runs are
 /// logged anonymously (id 0) and the specification infers which element each one is.
 pub struct TkZ;
@@ -257,6 +283,7 @@ serde_elem!(Tk);
 serde_elem!(Pl);
 serde_elem!(TkZ);
 serde_elem!(P1);
+serde_elem!(PlZ);
 impl serde::Serialize for Tk24 {
     fn serialize<S: serde::Serializer>(&self, s: S) -> Result<S::Ok, S::Error> {
         s.serialize_u32(Elem::id(self) as u32)
